@@ -172,3 +172,70 @@ class CvxpyPathTask(Task):
         got = np.array(expr.value)
         want = np.array(self.f(xnum))
         return got.shape == want.shape and bool(np.allclose(got, want, atol=1e-7))
+
+
+class ReturnedCertificateTask(Task):
+    """(value, measurements) as RETURNED by the real function with the real solver on one instance: the operators must form a
+    POVM (Hermitian, PSD, summing to the identity) and sum_i p_i Tr(rho_i M_i) must equal the returned value.  A statement
+    about the solver's output on a concrete instance - no SMT content; it is the only way the clause "the returned measurement
+    attains the value" can be observed at all (the operators do not exist before the solve).  A solver breakdown
+    (ArithmeticError / ZeroDivisionError / SolutionFailure inside the conic solver) is inconclusive, not a violation."""
+    engine = "certificate check of the real solver's output (concrete instance; no SMT content)"
+    weight = 15
+
+    def __init__(self, name, cfg, call, rhos, probs, tol=2e-5):
+        super().__init__(name, cfg)
+        self.call, self.rhos, self.probs, self.tol = call, [np.asarray(r, dtype=complex) for r in rhos], list(probs), tol
+
+    @staticmethod
+    def _arr(M):
+        v = getattr(M, "value", M)
+        return np.array(v, dtype=complex)
+
+    def _verdict(self):
+        val, Ms = self.call()
+        Ms = [self._arr(M) for M in Ms]
+        d = self.rhos[0].shape[0]
+        detail = {"returned_value": float(np.real(val))}
+        if len(Ms) != len(self.rhos) or any(M.shape != (d, d) for M in Ms):
+            return False, dict(detail, problem=f"{len(Ms)} operators of shapes {[M.shape for M in Ms][:4]} for {len(self.rhos)} states of dimension {d}")
+        herm = max(float(np.max(np.abs(M - M.conj().T))) for M in Ms)
+        mineig = min(float(np.linalg.eigvalsh((M + M.conj().T) / 2).min()) for M in Ms)
+        comp = float(np.max(np.abs(sum(Ms) - np.eye(d))))
+        att = float(sum(p * np.trace(r @ M).real for p, r, M in zip(self.probs, self.rhos, Ms)))
+        attc = float(sum(p * np.trace(r @ M.conj()).real for p, r, M in zip(self.probs, self.rhos, Ms)))
+        detail.update({"max_non_hermiticity": herm, "min_eigenvalue": mineig, "completeness_defect": comp, "value_attained_by_returned_operators": att})
+        if herm > 1e-6 or mineig < -1e-6 or comp > 1e-5:
+            return False, dict(detail, problem="the returned operators are not a POVM")
+        if abs(att - float(np.real(val))) > self.tol:
+            return False, dict(detail, problem="the returned POVM does not attain the returned value",
+                               conjugated_operators_attain_the_value=bool(abs(attc - float(np.real(val))) <= self.tol))
+        return True, detail
+
+    def _run(self, rec, seed):
+        try:
+            ok, detail = self._verdict()
+        except (ArithmeticError, ZeroDivisionError) as e:
+            rec["notes"].append(f"conic solver breakdown: {type(e).__name__}: {e}")
+            return
+        except Exception as e:  # noqa: BLE001
+            if "SolutionFailure" in type(e).__name__ or "Solver" in type(e).__name__:
+                rec["notes"].append(f"conic solver breakdown: {type(e).__name__}: {e}")
+                return
+            raise
+        rec["paths"], rec["reachable"] = 1, True
+        if ok:
+            rec["status"] = "discharged"
+        else:
+            rec["status"] = "violation"
+            rec["violation"] = {"source": "the real function's return value on a concrete instance (real solver)", "inputs": jsonable_cfg(self.cfg), **detail}
+
+    def replay(self, rp):
+        ok, detail = self._verdict()
+        print(detail)
+        return ok
+
+
+def jsonable_cfg(cfg):
+    import json
+    return json.loads(json.dumps(cfg, default=str))
